@@ -91,7 +91,9 @@ def cases(tier, seed):
     # ---- rejections
     for kind in REJECTED:
         for pos in ('ndarray', 'list', 'genfirst', 'dtypearg', 'create_dtype'):
-            yield {'form': 'reject', 'kind': kind, 'pos': pos}
+            for ow in (False, True):
+                yield {'form': 'reject', 'kind': kind, 'pos': pos, 'overwrite': ow}
+            yield {'form': 'reject', 'kind': kind, 'pos': pos, 'overwrite': True, 'existing': True}
 
 
 def chunklens(n, with_none):
@@ -336,30 +338,43 @@ def run_reject(case, env, res, d):
     kind, pos = case['kind'], case['pos']
     bad = rejected_array(kind)
     path = d / 'rejected'
+    ow = case.get('overwrite', False)
+    if case.get('existing'):
+        D.asarray(path, [1, 2, 3], metadata={'keep': 1})
+    from ..monitors import snapshot
+    before = snapshot(path)
     res.count('mon.rejections')
     res.dim('rejected_kind', kind)
     res.dim('rejected_position', pos)
     try:
         if pos == 'ndarray':
-            D.asarray(path, bad)
+            D.asarray(path, bad, overwrite=ow)
         elif pos == 'list':
-            D.asarray(path, bad.tolist() if kind != 'structured' else [('a', 1)])
+            D.asarray(path, bad.tolist() if kind != 'structured' else [('a', 1)], overwrite=ow)
         elif pos == 'genfirst':
-            D.asarray(path, (c for c in [bad, bad]))
+            D.asarray(path, (c for c in [bad, bad]), overwrite=ow)
         elif pos == 'dtypearg':
-            D.asarray(path, [0, 1], dtype=bad.dtype)
+            D.asarray(path, [0, 1], dtype=bad.dtype, overwrite=ow)
         else:
-            D.create_array(path, shape=(3,), dtype=bad.dtype, chunklen=2)
+            D.create_array(path, shape=(3,), dtype=bad.dtype, chunklen=2, overwrite=ow)
         raised = None
     except Exception as e:
         raised = e
     res.nontrivial = True
-    res.sig = repr(('reject', kind, pos))
+    res.sig = repr(('reject', kind, pos, ow, bool(case.get('existing'))))
     listing = sorted(p.name for p in d.iterdir())
+    if case.get('existing'):
+        # the path held an array: a rejected call must leave it exactly as it was
+        if raised is None or not isinstance(raised, TypeError):
+            res.fail(f'reject:accepted-or-wrong-exception:{kind}:{pos}:existing',
+                     f'{kind} as {pos} over an existing array with overwrite=True: {type(raised).__name__ if raised else "accepted"}')
+        elif snapshot(path) != before:
+            res.fail(f'reject:existing-array-touched:{kind}:{pos}', f'{kind} as {pos}: TypeError raised but the existing array changed')
+        return
     if raised is None:
         res.fail(f'reject:accepted:{kind}:{pos}', f'{kind} as {pos} was accepted; directory now holds {listing}')
     elif not isinstance(raised, TypeError):
         res.fail(f'reject:wrong-exception:{kind}:{pos}:{type(raised).__name__}',
                  f'{kind} as {pos}: raised {type(raised).__name__} instead of TypeError: {str(raised)[:160]}')
     elif path.exists() or listing:
-        res.fail(f'reject:disk-touched:{kind}:{pos}', f'{kind} as {pos}: TypeError raised but {listing} was left on disk')
+        res.fail(f'reject:disk-touched:{kind}:{pos}:overwrite={ow}', f'{kind} as {pos}: TypeError raised but {listing} was left on disk')
